@@ -29,12 +29,85 @@ INVENTORY = os.path.join(os.path.dirname(os.path.abspath(__file__)), "known_fns.
 MAX_BLOCKS = 6000
 
 
+_INV = {}
+
+
 def load_inventory():
     try:
         with open(INVENTORY) as fh:
-            return set(json.load(fh)["functions"])
+            j = json.load(fh)
     except FileNotFoundError:
         return None
+    _INV["signatures"] = j.get("signatures", {})
+    _INV["configs"] = j.get("configs", {})
+    return set(j["functions"])
+
+
+def _rename_all(o, old, new):
+    """replace the function name `old` by `new` wherever a fact names a function (callee as written / resolved, fn items,
+    closure parents)"""
+    if isinstance(o, dict):
+        for k, v in o.items():
+            if isinstance(v, str):
+                if k in ("f", "r", "fn", "rfn", "parent", "iparent", "clo") and v.startswith(old) and (len(v) == len(old) or v[len(old)] == ":"):
+                    o[k] = new + v[len(old):]
+            elif isinstance(v, (dict, list)):
+                _rename_all(v, old, new)
+    elif isinstance(o, list):
+        for v in o:
+            if isinstance(v, (dict, list)):
+                _rename_all(v, old, new)
+
+
+def resolve_renames(prog, known):
+    """A reviewed function that is gone while a function unknown to the inventory with the *same signature* exists in the
+    *same impl / module* - and there is exactly one such pair there - has been renamed. The facts are rewritten to the
+    reviewed name, so that rules that address the function by name still find it (reports show the reviewed name and
+    the new source lines). Anything less clear-cut is left alone: the missing anchor is then reported as such."""
+    sigs, cfgs = _INV.get("signatures", {}), _INV.get("configs", {})
+    if not sigs:
+        return {}
+    present = set(prog.by_norm)
+    missing = [k for k in known if k not in present and prog.config in cfgs.get(k, ()) and "{closure" not in k]
+    if not missing:
+        return {}
+    unknown = [f for f in prog.fns.values() if f.kind != "closure" and f.crate.startswith("kanata") and f.norm not in known
+               and len(prog.by_norm[f.norm]) == 1]
+    renamed = {}
+    for k in missing:
+        parent = k.rsplit("::", 1)[0]
+        same_parent_missing = [m for m in missing if m.rsplit("::", 1)[0] == parent and sigs.get(m) == sigs.get(k)]
+        cands = [f for f in unknown if f.norm.rsplit("::", 1)[0] == parent
+                 and [f.locals[0]["ty"], [f.locals[i]["ty"] for i in range(1, f.nargs + 1)]] == sigs.get(k)]
+        if len(cands) == 1 and len(same_parent_missing) == 1:
+            renamed[cands[0].norm] = k
+    for new_norm, old_norm in renamed.items():
+        f = prog.by_norm[new_norm][0]
+        old_full = f.name
+        # the reviewed name with the generic arguments of the new one: replace the last path segment
+        new_full = old_full.rsplit("::", 1)[0] + "::" + old_norm.rsplit("::", 1)[1]
+        for g in prog.fns.values():
+            _rename_all(g.j["blocks"], old_full, new_full)
+            for pb in g.j.get("promoted", []) or []:
+                _rename_all(pb.get("blocks", []), old_full, new_full)
+            for key in ("parent", "iparent"):
+                v = g.j.get(key)
+                if isinstance(v, str) and v.startswith(old_full) and (len(v) == len(old_full) or v[len(old_full)] == ":"):
+                    g.j[key] = new_full + v[len(old_full):]
+        # re-key the function and its closures
+        for name in [n for n in list(prog.fns) if n == old_full or n.startswith(old_full + "::")]:
+            g = prog.fns.pop(name)
+            nn = new_full + name[len(old_full):]
+            ng = Fn(prog, g.crate, nn, g.j)
+            prog.fns[nn] = ng
+            lst = prog.by_norm.get(g.norm, [])
+            if g in lst:
+                lst.remove(g)
+                if not lst:
+                    del prog.by_norm[g.norm]
+            prog.by_norm[ng.norm].append(ng)
+    prog._cg = prog._rcg = prog._children = None
+    return renamed
 
 
 def _shift(o, loff, poff):
@@ -273,9 +346,11 @@ def normalise(prog):
     everywhere. Returns the sorted list of helper names (empty on the reviewed tree)."""
     known = load_inventory()
     prog.transparent = []
+    prog.renamed = {}
     prog.inventory_missing = known is None
     if known is None:
         return []
+    prog.renamed = resolve_renames(prog, known)
     helpers = {}
     for f in prog.fns.values():
         if f.kind == "closure" or not f.crate.startswith("kanata") or f.derive or f.norm in known:
